@@ -372,8 +372,9 @@ class StateSpace(object):
             self._fn(slot).__defaults__ = value
         elif slot[0] == "fnattr":
             d = vars(self._fn(slot))
-            d.clear()
-            d.update(value)
+            if value is not d:                    # (refilled in place already: clearing it would empty the value itself)
+                d.clear()
+                d.update(value)
 
     def _unbind(self, slot):
         if slot[0] == "mod":
